@@ -86,7 +86,14 @@ type c15Case struct {
 	Desc  string   `json:"description"`
 }
 
+// c15Trail: null items appended after the host's real items (0 = none)
+var c15Trail = 0
+
 func c15Build(host, pos int, atEnd bool, form int, text string, noFormat, withComment bool) jh.Outcome {
+	return c15BuildTrail(host, pos, atEnd, form, text, noFormat, withComment, 0)
+}
+
+func c15BuildTrail(host, pos int, atEnd bool, form int, text string, noFormat, withComment bool, trail int) jh.Outcome {
 	h := c15Hosts[host]
 	items := h.items()
 	var codes []jen.Code
@@ -101,6 +108,12 @@ func c15Build(host, pos int, atEnd bool, form int, text string, noFormat, withCo
 	}
 	if withComment && !atEnd && pos == len(items) {
 		codes = append(codes, c15Forms[form].mk(&jen.Statement{}, text))
+	}
+	switch trail {
+	case 1:
+		codes = append(codes, jen.Null())
+	case 2:
+		codes = append(codes, nil, jen.Add())
 	}
 	f := jen.NewFile("p")
 	f.NoFormat = noFormat
@@ -128,8 +141,12 @@ func c15ValidText(t string) bool {
 
 // c15Place judges one placement; "" = holds.
 func c15Place(host, pos int, atEnd bool, form int, text string, base [2][]jh.Tok) string {
+	return c15PlaceTrail(host, pos, atEnd, form, text, base, 0)
+}
+
+func c15PlaceTrail(host, pos int, atEnd bool, form int, text string, base [2][]jh.Tok, trail int) string {
 	for fi, noFormat := range []bool{true, false} {
-		o := c15Build(host, pos, atEnd, form, text, noFormat, true)
+		o := c15BuildTrail(host, pos, atEnd, form, text, noFormat, true, trail)
 		mode := map[bool]string{true: "raw", false: "formatted"}[noFormat]
 		if !o.OK() {
 			return mode + " render failed: " + jh.Short(o.String(), 300)
@@ -311,7 +328,7 @@ func runC15(r *ev.Recorder) {
 		fn = append(fn, f.name)
 	}
 	r.Rule = fmt.Sprintf("comment texts: every string of length <= %d over %q that does not start with a comment marker nor contain */ (%d texts) plus %d longer code-like texts; "+
-		"placed (a) as an item of its own at every slot and (b) with .Comment at the end of every item of the hosts %v, through the forms %v; rendered raw (NoFormat) and formatted. "+
+		"placed (a) as an item of its own at every slot and (b) with .Comment at the end of every item of the hosts %v, through the forms %v; rendered raw (NoFormat) and formatted; for the last position of each host also with null items (Null(); nil, Add()) appended to the host list. "+
 		"Oracle: go/scanner reports no error and the code-token sequence (semicolons ignored) equals that of the host without comment; in the raw output exactly one comment token holds the text verbatim, // style for one-line text and /* */ when it contains a newline; "+
 		"after gofmt every non-blank line of the text is still inside a comment. File level: every pair of 0..2 header comments and 0..2 package comments from 12 marked texts: ast.File.Doc holds every package-comment line and no header line, header text stays above the package clause; "+
 		"CanonicalPath: every string of length <= 2 over the 26 C12 units: the package clause line carries `// import <lit>` with strconv.Unquote(lit) == path. distinct_nontrivial = distinct (text, host, position, form) cases whose text is not plain letters", maxLen, c15Alphabet, len(texts)-len(long), len(long), hn, fn)
@@ -350,6 +367,20 @@ func runC15(r *ev.Recorder) {
 		if msg := c15Place(pl.host, pl.pos, pl.atEnd, fi, t, bases[pl.host]); msg != "" {
 			r.Violate(ev.Violation{Signature: "c15:place:" + c15Hosts[pl.host].name + ":" + problemKind(msg), What: desc + ": " + jh.Short(msg, 300),
 				Case: ev.JSON(c15Case{Kind: "place", Host: pl.host, Pos: pl.pos, AtEnd: pl.atEnd, Form: fi, Text: strconv.Quote(t), Desc: desc}), Detail: msg})
+		}
+		// the same placement when the host list ends in null items (they must not change anything)
+		if fi == 0 && len(t) <= 2 {
+			n := len(c15Hosts[pl.host].items())
+			if (pl.atEnd && pl.pos == n-1) || (!pl.atEnd && pl.pos == n) {
+				for trail := 1; trail <= 2; trail++ {
+					r.Eval(2)
+					if msg := c15PlaceTrail(pl.host, pl.pos, pl.atEnd, fi, t, bases[pl.host], trail); msg != "" {
+						d := desc + fmt.Sprintf(" with trailing null items (variant %d) in the host", trail)
+						r.Violate(ev.Violation{Signature: "c15:place-trailing-null:" + c15Hosts[pl.host].name + ":" + problemKind(msg), What: d + ": " + jh.Short(msg, 300),
+							Case: ev.JSON(c15Case{Kind: "place", Host: pl.host, Pos: pl.pos, AtEnd: pl.atEnd, Form: fi, Text: strconv.Quote(t), Heads: []string{fmt.Sprint(trail)}, Desc: d}), Detail: msg})
+					}
+				}
+			}
 		}
 		if i%200003 == 0 && r.WantSample() {
 			r.Sample(map[string]any{"case": desc, "raw_output": c15Build(pl.host, pl.pos, pl.atEnd, fi, t, true, true).Out})
@@ -413,7 +444,11 @@ func replayC15(raw json.RawMessage) (bool, string) {
 	switch c.Kind {
 	case "place":
 		t, _ := strconv.Unquote(c.Text)
-		msg = c15Place(c.Host, c.Pos, c.AtEnd, c.Form, t, [2][]jh.Tok{c15BaseTokens(c.Host, true), c15BaseTokens(c.Host, false)})
+		trail := 0
+		if len(c.Heads) == 1 {
+			trail, _ = strconv.Atoi(c.Heads[0])
+		}
+		msg = c15PlaceTrail(c.Host, c.Pos, c.AtEnd, c.Form, t, [2][]jh.Tok{c15BaseTokens(c.Host, true), c15BaseTokens(c.Host, false)}, trail)
 	case "file":
 		msg = c15FileLevel(c.Heads, c.Pkgs)
 	case "canonical":
